@@ -238,16 +238,20 @@ def groupFrom (m : List (Nat × List Nat)) (i : Nat) : List (List Nat) → List 
 
 def group (sets : List (List Nat)) : List (Nat × List Nat) := groupFrom [] 0 sets
 
-/-- why `DoBatchWithOptions` returned before spawning anything. In every case `Cleanup` ran once. -/
+/-- why `DoBatchWithOptions` returned before spawning anything -/
 inductive Early | noInstances | ctx | get | emptyOk
   deriving DecidableEq, Repr, Inhabited
 
-/-- what an early return does, in program order: `o.Cleanup()` once, then `return err`; no callback
-is invoked and nothing is spawned. -/
-inductive EarlyEv | cleanup | ret (e : Early)
+/-- what an early return of the prefix looks like from outside. The two counters are written down at
+every `return` site of the model exactly as the Go code does it there (`o.Cleanup(); return …`, no
+callback), so that "cleanup exactly once, no call" on the early paths is a theorem about the prefix
+function (all inputs, all sites) and the oracle's expected trace is derived from them. -/
+structure EarlyRet where
+  why : Early
+  gets : Nat       -- `Get` calls made before returning
+  cleanups : Nat   -- times `o.Cleanup()` ran before the `return`
+  calls : Nat      -- callbacks invoked
   deriving DecidableEq, Repr, Inhabited
-
-def earlyTrace (e : Early) : List EarlyEv := [.cleanup, .ret e]
 
 structure Prep where
   items : List Item
@@ -265,36 +269,47 @@ def cancelled (cancelAt : Option Nat) (i : Nat) : Bool :=
   | none => false
 
 /-- the key loop. `cancelAt = some c`: the context ends after `c` calls of `Get` have been made
-(`some 0` = already ended on entry). Returns `(Early, gets)` or the trackers and replica sets. -/
+(`some 0` = already ended on entry). Returns the early return or the trackers and replica sets. -/
 def keyLoop (cancelAt : Option Nat) : Nat → List GetRes → List Item → List (List Nat) →
-    Except (Early × Nat) (List Item × List (List Nat))
+    Except EarlyRet (List Item × List (List Nat))
   | _, [], items, sets => .ok (items.reverse, sets.reverse)
   | i, g :: rest, items, sets =>
-    if i % 10000 = 0 ∧ cancelled cancelAt i then .error (.ctx, i)
+    if i % 10000 = 0 ∧ cancelled cancelAt i then
+      -- `if err := context.Cause(ctx); err != nil { o.Cleanup(); return err }`
+      .error { why := .ctx, gets := i, cleanups := 1, calls := 0 }
     else match g with
-      | .err => .error (.get, i + 1)
+      | .err =>
+        -- `if err != nil { o.Cleanup(); return err }`
+        .error { why := .get, gets := i + 1, cleanups := 1, calls := 0 }
       | .ok addrs me => keyLoop cancelAt (i + 1) rest (mkItem addrs me :: items) (addrs :: sets)
 
 /-- shared body of the sequential prefix. `emptyEarly`: does an empty key list return early
 (`if len(keys) == 0 { o.Cleanup(); return nil }` after the last context check)? -/
 def prepareWith (emptyEarly : Bool) (icount : Int) (cancelAt : Option Nat) (gets : List GetRes) :
-    Except (Early × Nat) Prep :=
-  if icount ≤ 0 then .error (.noInstances, 0) else
+    Except EarlyRet Prep :=
+  if icount ≤ 0 then
+    -- `o.Cleanup(); return fmt.Errorf("DoBatch: InstancesCount <= 0")`
+    .error { why := .noInstances, gets := 0, cleanups := 1, calls := 0 }
+  else
   match keyLoop cancelAt 0 gets [] [] with
   | .error e => .error e
   | .ok (items, sets) =>
-    if cancelled cancelAt gets.length then .error (.ctx, gets.length)
-    else if emptyEarly ∧ gets = [] then .error (.emptyOk, 0)
+    if cancelled cancelAt gets.length then
+      -- last context check: `o.Cleanup(); return err`
+      .error { why := .ctx, gets := gets.length, cleanups := 1, calls := 0 }
+    else if emptyEarly ∧ gets = [] then
+      -- `if len(keys) == 0 { o.Cleanup(); return nil }`
+      .error { why := .emptyOk, gets := 0, cleanups := 1, calls := 0 }
     else .ok { items := items, calls := group sets, gets := gets.length }
 
 /-- the sequential prefix of `DoBatchWithOptions` (the code as it is now, i.e. with the repair of D2:
 an empty key list returns `nil` after `Cleanup()`), up to the point where the goroutines are spawned. -/
-def prepare (icount : Int) (cancelAt : Option Nat) (gets : List GetRes) : Except (Early × Nat) Prep :=
+def prepare (icount : Int) (cancelAt : Option Nat) (gets : List GetRes) : Except EarlyRet Prep :=
   prepareWith true icount cancelAt gets
 
 /-- HISTORY: the prefix before commit "fix: DoBatch with an empty key list never returns" — no early
 return for an empty key list. Kept only for the witness theorem `empty_keys_hang`. -/
-def preparePreFix (icount : Int) (cancelAt : Option Nat) (gets : List GetRes) : Except (Early × Nat) Prep :=
+def preparePreFix (icount : Int) (cancelAt : Option Nat) (gets : List GetRes) : Except EarlyRet Prep :=
   prepareWith false icount cancelAt gets
 
 def mkThreads (calls : List (Nat × List Nat)) (out : Nat → Outcome) : List Thread :=
